@@ -31,7 +31,7 @@ _BUILTINS = {
     "range": range, "reversed": lambda x: list(reversed(x)), "zip": lambda *a: list(zip(*a)),
     "enumerate": lambda x: list(enumerate(x)), "min": min, "max": max, "bool": bool,
     "True": True, "False": False, "None": None, "unichr": chr, "text_type": str,
-    "bytes": bytes, "any": any, "all": all, "sum": sum, "abs": abs,
+    "bytes": bytes, "any": any, "all": all, "sum": sum, "abs": abs, "bytearray": bytearray,
 }
 _CALLABLE_BUILTINS = {k for k, v in _BUILTINS.items() if callable(v)}
 _MUTATING = ("update", "append", "extend", "add", "setdefault", "insert", "discard", "remove", "pop", "clear", "sort", "reverse")
@@ -41,6 +41,7 @@ _PURE_METHODS = {
           "startswith", "endswith", "replace", "translate", "isdigit", "isalpha", "title",
           "find", "index", "count", "capitalize", "islower", "isupper", "isalnum", "isspace"},
     bytes: {"decode", "lower", "upper", "join", "split", "strip", "startswith", "endswith"},
+    bytearray: {"decode", "lower", "upper", "startswith", "endswith"},
     dict: {"items", "keys", "values", "get", "copy"},
     frozenset: {"union", "intersection", "difference", "issubset", "issuperset", "copy"},
     set: {"union", "intersection", "difference", "issubset", "issuperset", "copy"},
